@@ -94,6 +94,18 @@ class S(Step):
                       states['s']['mark'], 'mark': 1}}
 
 
+class Dep(Step):
+    """depends on st0: copies what st0 wrote in this phase"""
+
+    def ports_schema(self):
+        return {'s': {'seen_st0': {'_default': 0},
+                      'dep': {'_default': 0, '_updater': 'set',
+                              '_emit': True}}}
+
+    def next_update(self, timestep, states):
+        return {'s': {'dep': states['s']['seen_st0'] + 1}}
+
+
 def jobs(tier):
     q = tier == 'quick'
     return [
@@ -108,7 +120,8 @@ def jobs(tier):
 
 def run_once(ctx, cfg, order, sorder, init_keys, reverse):
     names = ['p%d' % i for i in range(cfg['N'])]
-    snames = ['st%d' % i for i in range(cfg['steps'])]
+    snames = ['st%d' % i for i in range(cfg['steps'])] + (
+        ['dep'] if cfg['steps'] else [])
     CTX['applies'] = 0
     CTX['inv'] = []
     CTX['sinv'] = []
@@ -118,9 +131,10 @@ def run_once(ctx, cfg, order, sorder, init_keys, reverse):
     topology = {n: {'s': ('s',)} for n in topo_names}
     kwargs = {}
     if snames:
-        kwargs['steps'] = {n: S({'name': n}) for n in sorder}
-        kwargs['flow'] = {n: [] for n in (reversed(sorder) if reverse
-                                          else sorder)}
+        kwargs['steps'] = {n: (Dep({'name': n}) if n == 'dep'
+                               else S({'name': n})) for n in sorder}
+        kwargs['flow'] = {n: ([('st0',)] if n == 'dep' else [])
+                          for n in (reversed(sorder) if reverse else sorder)}
         for n in sorder:
             topology[n] = {'s': ('s',)}
     init = {'s': {k: 0 for k in init_keys}}
@@ -134,7 +148,8 @@ def run_once(ctx, cfg, order, sorder, init_keys, reverse):
 
 def body(ctx, cfg):
     names = ['p%d' % i for i in range(cfg['N'])]
-    snames = ['st%d' % i for i in range(cfg['steps'])]
+    snames = ['st%d' % i for i in range(cfg['steps'])] + (
+        ['dep'] if cfg['steps'] else [])
     CTX.clear()
     CTX['ctx'] = ctx
     CTX['ts'] = {n: ctx.int('ts', 1, cfg['B']) for n in names}
@@ -172,7 +187,7 @@ def body(ctx, cfg):
                 else None
             committed.append(row is not None and EQ(a['z'], row['s']['z']))
         sinv = r['sinv']
-        nst = len(snames)
+        nst = cfg['steps']
         for i in range(0, len(sinv) - nst + 1, nst or 1):
             grp = sinv[i:i + nst]
             for a, b in itertools.combinations(grp, 2):
